@@ -1,0 +1,17 @@
+//! Verification hooks (feature `verif-hooks`). Inert unless armed; used only by /verif.
+
+use std::sync::atomic::{AtomicU64, Ordering};
+
+static SNAPSHOT_NOW: AtomicU64 = AtomicU64::new(0);
+
+/// Override the wall-clock second recorded by group snapshots (0 = use the real clock).
+pub fn set_snapshot_now(secs: u64) {
+    SNAPSHOT_NOW.store(secs, Ordering::SeqCst);
+}
+
+pub(crate) fn snapshot_now(real: u64) -> u64 {
+    match SNAPSHOT_NOW.load(Ordering::SeqCst) {
+        0 => real,
+        v => v,
+    }
+}
